@@ -235,6 +235,19 @@ def known_finding_runs(ctx, header, corpus):
     ev, _, bad = totality(ctx, "kf_f11", [T(s) for s in KF_LENIENT], header, kf_tag="lenient-disagrees-with-strict", batch=100, jobs=1)
     rep = [s for e in ev if e["ev"] == "batch" for s, o in zip(KF_LENIENT, e["obs"]) if (o[0] == 0 and (o[2] != 0 or not o[3])) or (o[4] == 0 and (o[6] != 0 or not o[7]))]
     res["F11 lenient disagrees with strict"] = {"reproduced": rep, "not_reproduced": [s for s in KF_LENIENT if s not in rep]}
+    # F51: a parenthesised group is one operand of its parent; when the parser removes a repeated clause from it
+    # (`(ab AND ab)`: +ab +ab -> +ab) the group is left with one clause and dissolves into the parent TOGETHER WITH
+    # that clause's marker: `ba (ab AND ab)` is read `ba +ab` (default OR mode), `ba (ab OR ab)` as `ba` with ab
+    # optional (conjunction mode).  The texts are written so that the two clauses are equal for the parser.
+    W = lambda t: [ord(c) for c in t]
+    ab, ba = ["w", "title", 1], ["w", "title", 3]
+    cases = [{"q": ["bool", [["", ba], ["", ["paren", ["bin", [ab, ab], ["AND"]]]]]], "texts": [W("title:ba (title:ab AND title:ab)"), W('title:ba ( title:"ab" AND title:"ab" )')]},
+             {"q": ["bool", [["", ba], ["", ["paren", ["bin", [ab, ab], ["OR"]]]]]], "texts": [W("title:ba (title:ab OR title:ab)")]},
+             {"q": ["bool", [["", ba], ["", ["paren", ["bool", [["+", ab], ["+", ab]]]]]]], "texts": [W("title:ba (+title:ab +title:ab)")]},
+             {"q": ["grp", "title", [["", ba], ["", ["paren", ["bin", [["w", "", 1], ab], ["AND"]]]]]], "texts": [W("title:(ba (ab AND title:ab))")]}]
+    ev, _ = drive(ctx, {"kind": "meaning", "corpus": corpus}, cases, "kf_f51", jobs=1)
+    ok, bad = el.judge(ctx, MODULE, CFG, per_event_runs(ev), "kf_f51", key=meaning_key, nontrivial=meaning_nontrivial, kf_tag="repeated-clause-group-dissolves")
+    res["F51 group left with one clause dissolves with its marker"] = {"cases": len(cases), "reproduced": bad}
     if "C16-e" in fixed_ids():
         deep_nesting(ctx, header)
     else:
